@@ -96,9 +96,45 @@ def column(rng, mask):
     return [nan if m else rng.choice(VALS) for m in mask]
 
 
-def index(rng, n):
+def index(rng, n, ix=''):
+    """a strictly increasing index of n labels: datetimes (ix = ''), INTEGERS (ix = 'i': range(k, k+n) with k in {0, 1, 10} - label =
+    position only for k = 0 - or any increasing integers, negative ones included) or FLOATS (ix = 'f', multiples of 1/4).
+    Review v4 2.1: `df[label:]` is a POSITIONAL slice on an integer index; C12's quantifier does not restrict the labels."""
+    if ix == 'i':
+        if rng.random() < 0.6:
+            k = rng.choice([0, 1, 1, 10])
+            return pd.Index(list(range(k, k + n)), dtype='int64')
+        return pd.Index(sorted(rng.sample(range(-3, 3 * n + 4), n)), dtype='int64')
+    if ix == 'f':
+        return pd.Index([q / 4.0 for q in sorted(rng.sample(range(-4, 6 * n + 6), n))], dtype='float64')
     days = sorted(rng.sample(range(0, 3 * n + 4), n))
     return pd.DatetimeIndex([W.day(d) for d in days])
+
+
+def base(kind):
+    """'si' / 'sf' / 'dfi' / 'dff' are a Series / DataFrame over integer / float labels: the kind without its index spelling"""
+    return 'df' if kind.startswith('df') else kind[0] if kind[0] == 's' else kind
+
+
+def ixof(kind):
+    return kind[len(base(kind)):] if base(kind) in ('s', 'df') else ''
+
+
+def rand_ix(rng):
+    r = rng.random()
+    return 'i' if r < 0.3 else 'f' if r < 0.4 else ''
+
+
+def enc_label(ix, t):
+    return 'T:%d' % int(t) if ix == 'i' else 'T:%d' % int(round(float(t) * 4)) if ix == 'f' else W.enc_t(t)
+
+
+def dec_index(ix, atoms):
+    if ix == 'i':
+        return pd.Index([int(a[2:]) for a in atoms], dtype='int64')
+    if ix == 'f':
+        return pd.Index([int(a[2:]) / 4.0 for a in atoms], dtype='float64')
+    return pd.DatetimeIndex([W.dec_t(a) for a in atoms])
 
 
 LABEL_FREE = ['ffill', 'bfill', 'backfill', 'nona', 'c:0', 'c:6', 'c:-3']     # methods that never compare index labels
@@ -116,7 +152,7 @@ def reorder_index(rng, x):
     else:
         idx = sorted(rng.choice(idx) for _ in range(n))
     y = x.copy()
-    y.index = pd.DatetimeIndex(idx)
+    y.index = pd.Index(idx) if len(idx) and not isinstance(idx[0], pd.Timestamp) else pd.DatetimeIndex(idx)
     return y, how
 
 
@@ -124,6 +160,7 @@ def with_inf(rng, kind, x):
     """law-only inputs: the same object with some of its non-NaN cells at +-inf (the wire / model values are scaled integers and
     have no infinities; the statement's clauses - a non-NaN cell is never changed, a constant fills only NaN, the array result is
     the values of the pandas result - are checked on them directly; seeded change C12-q2: an `np.nan_to_num` fast path)"""
+    kind = base(kind)
     a = np.array(x.values if kind in ('s', 'df') else x, dtype=float)
     flat = a.reshape(-1)
     for i in range(flat.size):
@@ -154,11 +191,12 @@ def rand_limit(rng, allow0):
 
 
 def make_obj(rng, kind, n):
+    ix, kind = ixof(kind), base(kind)
     if kind in ('s', 'a1'):
         mask, pk = pattern(rng, n)
         col = column(rng, mask)
         if kind == 's':
-            return pd.Series(col, index(rng, n), dtype=float), pk
+            return pd.Series(col, index(rng, n, ix), dtype=float), pk
         return np.array(col, dtype=float), pk
     w = rng.choice([1, 2, 2, 3]) if kind in ('df', 'a2') else 1   # one-column frames / (n,1) arrays take their own branches in the code
     cols, pks = [], []
@@ -170,15 +208,17 @@ def make_obj(rng, kind, n):
         cols.append(column(rng, mask)); pks.append(pk)
     if kind == 'df':
         names = rng.sample(['a', 'b', 'c', 'x'], w)
-        return pd.DataFrame({k: np.array(c, dtype=float) for k, c in zip(names, cols)}, index=index(rng, n), columns=names, dtype=float), pks[0]
+        return pd.DataFrame({k: np.array(c, dtype=float) for k, c in zip(names, cols)}, index=index(rng, n, ix), columns=names, dtype=float), pks[0]
     return np.array(cols, dtype=float).T.reshape(n, w), pks[0]
 
 
 def enc_obj(kind, x):
+    ix, kind = ixof(kind), base(kind)
     if kind == 's':
-        return W.enc_series(x, S)
+        return '(L' + ''.join(' (T %s %s)' % (enc_label(ix, t), W.enc_v(v, S)) for t, v in zip(x.index, x.values)) + ')'
     if kind == 'df':
-        return W.enc_frame(x, S)
+        return '(T (L%s) (D%s))' % (''.join(' ' + enc_label(ix, t) for t in x.index),
+                                    ''.join(' (%s %s)' % (W.hexs(str(c)), W.enc_col(x.iloc[:, j].values, S)) for j, c in enumerate(x.columns)))
     return W.enc_arr(x, S)
 
 
@@ -186,6 +226,8 @@ def generate(rng, tier):
     n_rand = 1400 if tier == 'quick' else 30000
     for _ in range(n_rand):
         kind = rng.choice(['s', 's', 'df', 'df', 'a1', 'a2'])
+        if kind in ('s', 'df'):
+            kind += rand_ix(rng)      # integer / float labels (review v4 2.1)
         n = rng.choice([0, 1, 2, 3, 4, 5, 6, 7, 8, 10])
         x, pk = make_obj(rng, kind, n)
         if rng.random() < 0.15:
@@ -199,6 +241,7 @@ def generate(rng, tier):
     # index orders: the label-free methods must behave the same on ANY index (the others: see ASSUMPTIONS)
     for _ in range(n_rand // 7):
         kind = rng.choice(['s', 'df'])
+        kind += rand_ix(rng)
         x, _ = make_obj(rng, kind, rng.choice([2, 3, 4, 5, 6, 8]))
         x, how = reorder_index(rng, x)
         ms = [rng.choice(LABEL_FREE) for _ in range(rng.choice([1, 1, 2, 3]))]
@@ -249,6 +292,13 @@ def generate(rng, tier):
 # ------------------------------------------------------------------ implementation runner
 
 def dec_obj(kind, sx):
+    ix, kind = ixof(kind), base(kind)
+    if kind == 's' and ix:
+        rows = sx[1:]
+        return pd.Series([W.dec_v(r[2], S) for r in rows], dec_index(ix, [r[1] for r in rows]), dtype=float)
+    if kind == 'df' and ix:
+        cols = [(W.unhex(kv[0]), W.dec_col(kv[1], S)) for kv in sx[2][1:]]
+        return pd.DataFrame({k: np.array(v, dtype=float) for k, v in cols}, index=dec_index(ix, sx[1][1:]), columns=[k for k, _ in cols], dtype=float)
     if kind == 's':
         return W.dec_series(sx, S)
     if kind == 'df':
@@ -263,6 +313,7 @@ def run_line(state, sx):
     op, args = sx[1], sx[2:]
     fn, _, kind = op.partition('-')
     x = dec_obj(kind, args[0])
+    kind0, kind = kind, base(kind)
     before = W.snapshot(x)
     if fn == 'fillna':
         res = pyg_base.df_fillna(x, dec_methods(args[1]), limit=dec_limit(args[2]))
@@ -280,7 +331,9 @@ def run_line(state, sx):
         return 'violation columns %s' % list(res.columns)
     if kind == 'a2' and res.shape[1:] != x.shape[1:]:
         return 'violation shape %s' % (res.shape,)
-    reply = 'ok ' + enc_obj(kind, res)
+    if kind in ('s', 'df') and res.index.dtype != x.index.dtype and len(res):
+        return 'violation index-dtype %s' % res.index.dtype
+    reply = 'ok ' + enc_obj(kind0, res)
     if result_reaches_input(x, res, before):
         return 'violation ' + ALIAS_MSG
     return reply
@@ -368,6 +421,7 @@ def same_cols(a, b):
 
 def as_rows(kind, x):
     """(labels, list of columns) of an object"""
+    kind = base(kind)
     if kind == 's':
         return list(x.index), [list(map(float, x.values))]
     if kind == 'df':
@@ -403,13 +457,15 @@ def laws(rng, tier, ctx):
     m_cases = 500 if tier == 'quick' else 8000
     for _ in range(m_cases):
         kind = rng.choice(['s', 'df', 'a1', 'a2'])
+        if kind in ('s', 'df'):
+            kind += rand_ix(rng)
         n = rng.choice([0, 1, 2, 3, 5, 6, 8, 10])
         x, _ = make_obj(rng, kind, n)
         ms, sp = rand_methods(rng)
         how = None
         if n and rng.random() < 0.15:
             x = with_inf(rng, kind, x)
-        if kind in ('s', 'df') and n >= 2 and rng.random() < 0.2:
+        if base(kind) in ('s', 'df') and n >= 2 and rng.random() < 0.2:
             x, how = reorder_index(rng, x)
             ms = [rng.choice(LABEL_FREE) for _ in ms]
         lim_a = rand_limit(rng, False)
@@ -439,10 +495,10 @@ def laws(rng, tier, ctx):
             ok = rlabels == elabels and len(rcols) == len(ecols) and all(same_cols(a, b) for a, b in zip(rcols, ecols))
         if not ok:
             yield Finding('violation', case, 'result is not the sequential application of the methods as the statement defines them: '
-                          'got %s %s, expected %s %s' % (rlabels if kind in ('s', 'df') else '', rcols, elabels if kind in ('s', 'df') else '', ecols))
+                          'got %s %s, expected %s %s' % (rlabels if base(kind) in ('s', 'df') else '', rcols, elabels if base(kind) in ('s', 'df') else '', ecols))
             continue
         # a non-NaN cell is never changed (rows identified by label for pandas objects)
-        if kind in ('s', 'df') and len(set(labels)) == len(labels):
+        if base(kind) in ('s', 'df') and len(set(labels)) == len(labels):
             pos = {l: i for i, l in enumerate(labels)}
             for j, rc in enumerate(rcols):
                 for l, v in zip(rlabels, rc):
@@ -451,7 +507,7 @@ def laws(rng, tier, ctx):
                         yield Finding('violation', case, 'non-NaN cell changed at %s col %d: %r -> %r' % (l, j, o, v))
         # array path = values of the pandas path
         if kind in ('a1', 'a2'):
-            p = pd.Series(x, index(rng, n), dtype=float) if kind == 'a1' else pd.DataFrame(x, index(rng, n), dtype=float)
+            p = pd.Series(x, index(rng, n, rand_ix(rng)), dtype=float) if kind == 'a1' else pd.DataFrame(x, index(rng, n, rand_ix(rng)), dtype=float)
             pres = pyg_base.df_fillna(p, dec_methods(proto.parse(enc_methods(ms, sp))), limit=lim)
             count += 1
             if not W.same_pd(np.asarray(pres.values, dtype=float).reshape(res.shape) if pres.values.size == res.size else pres.values, res):
@@ -467,6 +523,8 @@ def laws(rng, tier, ctx):
     # nona(x, edge)
     for _ in range(m_cases // 4):
         kind = rng.choice(['s', 'df', 'a1', 'a2'])
+        if kind in ('s', 'df'):
+            kind += rand_ix(rng)
         x, _ = make_obj(rng, kind, rng.choice([0, 1, 3, 5, 8]))
         case = dict(tag='law-nona', lines=['(fill nona-%s %s N)' % (kind, enc_obj(kind, x))])
         before = W.snapshot(x)
@@ -477,7 +535,7 @@ def laws(rng, tier, ctx):
         rl, rc = as_rows(kind, res)
         if not W.same_pd(x, before):
             yield Finding('violation', case, 'the input object was modified')
-        elif (kind in ('s', 'df') and rl != el) or len(rc) != len(ec) or not all(same_cols(a, b) for a, b in zip(rc, ec)):
+        elif (base(kind) in ('s', 'df') and rl != el) or len(rc) != len(ec) or not all(same_cols(a, b) for a, b in zip(rc, ec)):
             yield Finding('violation', case, 'nona did not remove exactly the all-NaN rows: %s %s' % (rl, rc))
         elif result_reaches_input(x, res, before):
             yield Finding('violation', case, ALIAS_MSG)
@@ -485,6 +543,8 @@ def laws(rng, tier, ctx):
     # values of the result for the corresponding Series / DataFrame (the docstring: nona(np.array([1,nan,2,3]), edge = 1) is a)
     for _ in range(m_cases // 4):
         kind = rng.choice(['s', 'df', 'a1', 'a1', 'a2', 'a2'])
+        if kind in ('s', 'df'):
+            kind += rand_ix(rng)
         n = rng.choice([0, 1, 3, 5, 8])
         x, _ = make_obj(rng, kind, n)
         e = rng.choice([1, -1])
@@ -510,12 +570,12 @@ def laws(rng, tier, ctx):
             yield Finding('violation', case, 'nona(x, edge=%d) returned a %s' % (e, type(res).__name__))
             continue
         rl, rc = as_rows(kind, res)
-        if (kind in ('s', 'df') and rl != el) or len(rc) != len(ec) or not all(same_cols(a, b) for a, b in zip(rc, ec)):
+        if (base(kind) in ('s', 'df') and rl != el) or len(rc) != len(ec) or not all(same_cols(a, b) for a, b in zip(rc, ec)):
             yield Finding('violation', case, NONA_EDGE_MSG % (e, 'last' if e == 1 else 'first') + ': got %s %s, the statement gives %s %s'
-                          % (rl if kind in ('s', 'df') else '', rc, el if kind in ('s', 'df') else '', ec))
+                          % (rl if base(kind) in ('s', 'df') else '', rc, el if base(kind) in ('s', 'df') else '', ec))
             continue
         if kind in ('a1', 'a2'):
-            p = pd.Series(x, index(rng, n), dtype=float) if kind == 'a1' else pd.DataFrame(x, index(rng, n), dtype=float)
+            p = pd.Series(x, index(rng, n, rand_ix(rng)), dtype=float) if kind == 'a1' else pd.DataFrame(x, index(rng, n, rand_ix(rng)), dtype=float)
             pres = pyg_base.nona(p, edge=e)
             count += 1
             if not W.same_pd(np.asarray(pres.values, dtype=float).reshape(res.shape) if pres.values.size == res.size else pres.values, res):
